@@ -216,7 +216,17 @@ impl TypeCheckable for PreObjective {
         context: &mut TypeCheckerContext,
         fn_context: &FunctionContext,
     ) -> Result<(), TransformError> {
-        self.rhs.type_check(context, fn_context)
+        self.rhs.type_check(context, fn_context)?;
+        // what is optimized is a number, like the sides of a comparison
+        let rhs_type = self.rhs.get_type(context, fn_context);
+        if !rhs_type.is_numeric() && !rhs_type.is_any() {
+            return Err(TransformError::Other(format!(
+                "Expected an objective of \"Number\", got \"{}\"",
+                rhs_type
+            ))
+            .add_span(self.rhs.span()));
+        }
+        Ok(())
     }
     fn populate_token_type_map(
         &self,
